@@ -278,6 +278,69 @@ def validation_guard(exits, g, pol) -> bool:
     return False
 
 
+def values_of(t):
+    """The value of a term, through conversions that keep every element as it is: np.asarray(v) / np.asanyarray(v) /
+    np.array(v) without a dtype are v; v.reshape(0, ...) is v (it exists only for a v without elements); a selection
+    whose arms agree is that arm."""
+    if not isinstance(t, tuple) or not t:
+        return t
+    t = tuple(values_of(x) if isinstance(x, tuple) else x for x in t)
+    if t[0] == "call" and t[1] in (("mod", "numpy.asarray"), ("mod", "numpy.asanyarray")) and len(t[2]) == 1 and not t[3]:
+        return t[2][0]
+    if t[0] == "alloc" and t[1] in ("numpy.array", "numpy.asarray") and len(t[2]) == 1 and not t[3]:
+        return t[2][0]
+    if t[0] == "call" and t[1][0] == "attr" and t[1][2] == "reshape" and t[2] and t[2][0] == ("const", 0) and not t[3]:
+        return t[1][1]
+    if t[0] == "sel" and t[2] == t[3]:
+        return t[2]
+    if t[0] == "old":
+        return t[1]
+    return t
+
+
+def _rejections(w):
+    """Exits that reject an input before the algorithm starts: raises, and the entry function's early return for an
+    empty argument (`if len(X) == 0: return []`) - the inputs the properties quantify over are not empty."""
+    out = [e for e in w.events if e.kind == "raise"]
+    for e in w.events:
+        if e.kind == "return" and e.fn is w.entry and not e.loops and e.guards \
+                and empty_input_test(values_of(e.guards[-1][0]), e.guards[-1][1]):
+            out.append(e)
+    return out
+
+
+def values_view(w):
+    """without_validation + values_of on every term of every event."""
+    import dataclasses
+    import types
+    raises = _rejections(w)
+    keep = lambda gs: tuple((values_of(g), pl) for g, pl in gs if not validation_guard(raises, g, pl))
+    view = types.SimpleNamespace(
+        entry=w.entry, repo=getattr(w, "repo", None),
+        loops={lid: dataclasses.replace(li, guards=keep(li.guards), domain=values_of(li.domain)) for lid, li in w.loops.items()},
+        events=[dataclasses.replace(e, target=values_of(e.target), value=values_of(e.value),
+                                    args=tuple(values_of(a) for a in (e.args or ())), guards=keep(e.guards)) for e in w.events])
+    return view
+
+
+def without_validation(w):
+    """View of a walk in which the complements of `if bad: raise` tests are dropped from every event's and loop's guards:
+    validation dominates the body without being part of the algorithm (on the inputs it rejects there is no result at all)."""
+    import dataclasses
+    import types
+    raises = _rejections(w)
+    if not raises:
+        return w
+    keep = lambda gs: tuple((g, pl) for g, pl in gs if not validation_guard(raises, g, pl))
+    view = types.SimpleNamespace(entry=w.entry, repo=getattr(w, "repo", None),
+                                 loops={lid: dataclasses.replace(li, guards=keep(li.guards)) for lid, li in w.loops.items()},
+                                 events=[dataclasses.replace(e, guards=keep(e.guards)) for e in w.events])
+    for name in ("lists", "mut_tables"):
+        if hasattr(w, name):
+            setattr(view, name, getattr(w, name))
+    return view
+
+
 def empty_input_test(g, pol) -> bool:
     """`len(arg) == 0` / `arg is None` / `arg.size == 0` / `not len(arg)`: the test of an empty argument."""
     t = g if pol else mk_not(g)
@@ -307,7 +370,7 @@ def main_returns(w: Walker):
     out = []
     for e in w.events:
         if e.kind == "return" and e.fn is w.entry:
-            if e.guards and not e.loops and empty_input_test(*e.guards[-1]) and all(
+            if e.guards and not e.loops and empty_input_test(values_of(e.guards[-1][0]), e.guards[-1][1]) and all(
                     validation_guard([r for r in w.events if r.kind == "raise"], g, pol) for g, pol in e.guards[:-1]):
                 continue
             out.append(e)
